@@ -1,2 +1,3 @@
 import Driver
-def main : IO Unit := IO.println "rodbus_model"
+def main : IO Unit := do
+  Rodbus.Driver.loop (← IO.getStdin) (← IO.getStdout)
